@@ -40,10 +40,17 @@ PROPS = {
     "C09": ("Spec.decode dispatches on field(bs,0,6): kind table, own type field, error for the 41 unsupported values, no panic - all proved.",
             "Lean 4 theorems parse_kind / unsupported_err via parseMessage_eq; all 64 types x lengths in the correspondence", "7/C09", ""),
     "C10": ("Two's-complement reading and the scale of every coordinate/speed/course/draught field proved as exact "
-            "(raw integer, scale) pairs for every bit pattern; the IEEE-754 rounding itself is outside the kernel and "
-            "is covered by bit-for-bit comparison and an exact rational check in the correspondence.",
-            "Lean 4 theorems on (raw, scale) pairs + toSigned_spec; f32 bit-pattern correspondence", "7/C10",
-            "Partial by nature: f32 conversion/division are modelled (driver uses Lean Float32), not proved."),
+            "(raw integer, scale) pairs for every bit pattern; the reported f32 is computed in the model by a software "
+            "IEEE-754 binary32 (i32->f32, /, *, round to nearest even, over Nat) and proved, for every scaled field of "
+            "every table and every raw value, to be finite and within the roundings of the single-precision expression "
+            "of the exact raw/600000, raw/600, raw/10, raw: exact for undivided quantities, correctly rounded (<= 2^-24 "
+            "relative) for fields of at most 23 bits, <= 2^-23 + 2^-48 for the 28/27-bit coordinates and type 27 "
+            "(theorem C10.reported_f32). The software binary32 is tied to the hardware by bit-for-bit comparison with "
+            "Rust's to_bits() (exhaustive over every raw value of every scaled field in the sweeps).",
+            "Lean 4 theorems on (raw, scale) pairs, toSigned_spec, and a verified software binary32 (rounding error "
+            "bounds over Q, Mathlib tactics in the proof files only); f32 bit-pattern correspondence incl. exhaustive sweeps", "7/C10",
+            "Modelled, not proved: that the hardware's f32 operations are IEEE-754 round-to-nearest-even (compared on every run; "
+            "driver op F additionally cross-checks the software binary32 against Lean's native Float32)."),
     "C11": ("Absent iff sentinel, otherwise the raw value: proved for every optional field table (scaled and integer), rate of turn, slot offsets.",
             "Lean 4 theorems scaled_none_iff / opt_none_iff + per-type tables", "7/C11", ""),
     "C12": ("Every code of every enumeration checked in the kernel against an independently formulated table (decide +kernel over the complete code space), injectivity via left inverses, ship-type round trip.",
@@ -105,7 +112,7 @@ def main():
         "engines": [
             {"name": "lean4-model+correspondence", "path": "/verif/lean",
              "serves_properties": CLAIMED,
-             "kind_free_text": "Lean 4 model + spec + theorems (lake project, core only), compiled driver; Rust harness "
+             "kind_free_text": "Lean 4 model + spec + theorems (lake project; model/spec/driver core-only, Lemmas/F32 and Props/C10 use Mathlib tactic modules), compiled driver; Rust harness "
                                "crate /verif/harness (3 feature sets) executing the same line protocol; python3 ./check"},
         ],
         "checks": checks,
